@@ -721,10 +721,35 @@ class MathFacade:
         c = _ctx()
         if c.branch(z3.Or(x.e < -1, x.e > 1)):
             raise ValueError("math domain error")
-        r = uninterpreted("acos", x)
+        r = _ack("acos", x)
         c.uf_cache[r.e.sexpr()] = x
         # range of the principal value: [0, pi] (pi as the exact value of the binary64 constant is irrelevant here)
         c.add(r.e >= 0)
+        if getattr(c, 'asin_used', False):
+            _link_acos_asin(c, r, x)
+        return r
+
+    @staticmethod
+    def asin(x):
+        """uninterpreted on [-1, 1] with range, sign and end-point facts, and tied to every acos term of the path by
+        acos t = asin(sqrt(1-t^2)) for t >= 0, = pi - asin(sqrt(1-t^2)) for t < 0 (exact identities of the principal values)"""
+        if not _isinstance(x, SymReal):
+            return _math.asin(x)
+        c = _ctx()
+        if c.branch(z3.Or(x.e < -1, x.e > 1)):
+            raise ValueError("math domain error")
+        r = _ack("asin", x)
+        if not hasattr(c, 'asin_cache'):
+            c.asin_cache = {}
+        c.asin_cache[r.e.sexpr()] = x
+        half_pi = z3.RealVal(str(Fraction(_math.pi) / 2))
+        c.add(z3.And(r.e >= -half_pi, r.e <= half_pi, (r.e >= 0) == (x.e >= 0), (r.e == 0) == (x.e == 0),
+                     (r.e == half_pi) == (x.e == 1), (r.e == -half_pi) == (x.e == -1)))
+        if not getattr(c, 'asin_used', False):
+            c.asin_used = True
+            for key, t in list(c.uf_cache.items()):
+                if key.startswith('acos!'):
+                    _link_acos_asin(c, _ack("acos", t), t)
         return r
 
     @staticmethod
@@ -735,13 +760,52 @@ class MathFacade:
         t = c.uf_cache.get(x.e.sexpr())
         if t is not None:  # sin(acos t) = sqrt(1 - t^2)
             return sym_sqrt(1 - t * t)
+        t = getattr(c, 'asin_cache', {}).get(x.e.sexpr())
+        if t is not None:  # sin(asin t) = t
+            return t
         return uninterpreted("sin", x)
 
     @staticmethod
     def cos(x):
         if not _isinstance(x, SymReal):
             return _math.cos(x)
+        c = _ctx()
+        t = c.uf_cache.get(x.e.sexpr())
+        if t is not None:  # cos(acos t) = t
+            return t
+        t = getattr(c, 'asin_cache', {}).get(x.e.sexpr())
+        if t is not None:  # cos(asin t) = sqrt(1 - t^2)
+            return sym_sqrt(1 - t * t)
         return uninterpreted("cos", x)
+
+
+def _ack(name, x):
+    """acos / asin as Ackermannised uninterpreted functions: one fresh real per distinct argument term, tied to the other
+    applications on the path by congruence and strict monotonicity (acos decreasing, asin increasing).  Keeps the queries in
+    pure nonlinear real arithmetic, which z3 decides far more reliably than the combination with uninterpreted functions."""
+    c = _ctx()
+    tbl = c.__dict__.setdefault('ack', {})
+    xe = z3.simplify(lift(x))
+    xe = z3.ToReal(xe) if z3.is_int(xe) else xe
+    key = (name, xe.sexpr())
+    if key in tbl:
+        return SymReal(tbl[key][1])
+    v = z3.Real(f'{name}!{len(tbl)}')
+    for (n2, _k), (x2, v2) in tbl.items():
+        if n2 == name:
+            c.add(z3.And(z3.Implies(xe == x2, v == v2),
+                         z3.Implies(xe < x2, v > v2 if name == 'acos' else v < v2),
+                         z3.Implies(xe > x2, v < v2 if name == 'acos' else v > v2)))
+    tbl[key] = (xe, v)
+    return SymReal(v)
+
+
+def _link_acos_asin(c, r, t):
+    s = sym_sqrt(1 - t * t)
+    a = _ack("asin", s)
+    half_pi = z3.RealVal(str(Fraction(_math.pi) / 2))
+    c.add(z3.And(a.e >= 0, a.e <= half_pi, (a.e == half_pi) == (s.e == 1), (a.e == 0) == (s.e == 0)))
+    c.add(r.e == z3.If(t.e >= 0, a.e, 2 * half_pi - a.e))
 
 
 MATH = MathFacade()
@@ -775,7 +839,7 @@ def install(mod, names=()):
     mod.int = SymIntType
     if hasattr(mod, 'math'):
         mod.math = MATH
-    for n in ('sqrt', 'isfinite', 'acos', 'sin', 'cos', 'floor', 'ceil'):
+    for n in ('sqrt', 'isfinite', 'acos', 'asin', 'sin', 'cos', 'floor', 'ceil'):
         if n in mod.__dict__ and mod.__dict__[n] is getattr(_math, n):
             setattr(mod, n, getattr(MATH, n))
     for n in names:
@@ -1005,6 +1069,8 @@ class SymbolicI:
         else:
             neg = z3.Not(c)
         ctx = self.ctx
+        pcs = list(ctx.solver.assertions())
+        chosen = []
         ctx.solver.push()
         try:
             if side:
@@ -1015,7 +1081,6 @@ class SymbolicI:
                 for pc in ctx.solver.assertions():  # sqrt symbols the path condition itself constrains
                     want |= _consts_of(pc)
                 changed = True
-                chosen = []
                 while changed:
                     changed = False
                     for sc in ctx.side:
@@ -1041,11 +1106,102 @@ class SymbolicI:
                 rec['failures'].append(Failure(label=label, verdict='sat', values=model_values(ctx, m),
                                                trace=list(ctx.trace)))
             else:
-                rec['failures'].append(Failure(label=label, verdict='unknown', values=None,
-                                               trace=list(ctx.trace)))
+                m = self._pinned_search(ctx, pcs + list(chosen), label)
+                if m is not None:
+                    rec['failures'].append(Failure(label=label, verdict='sat', values=model_values(ctx, m), trace=list(ctx.trace)))
+                else:
+                    rec['failures'].append(Failure(label=label, verdict='unknown', values=None, trace=list(ctx.trace)))
             return False
         finally:
             ctx.solver.pop()
+
+    def _pinned_search(self, ctx, pcs, label, tries=24):
+        """After an `unknown`: look for a counterexample with the numeric inputs pinned to values taken from (diversified) models
+        of the path condition alone -- with the inputs fixed the remaining query is easy.  Only ever turns an inconclusive
+        obligation into a candidate counterexample (which is then replayed against the real code), never into a pass."""
+        import random
+        inputs = [v for v in ctx.inputs.values() if z3.is_real(v) or z3.is_int(v)]
+        if not inputs or type(ctx) is not Ctx:
+            return None
+        rnd = random.Random(len(label) * 7919 + len(ctx.trace))
+        # (1) every input pinned to a value of a small palette (the whole query, path condition included, is then easy)
+        pal_r = [1, 2, 3, 5, 10, z3.Q(1, 2), z3.Q(3, 2), z3.Q(6, 5), z3.Q(5, 2), z3.Q(1, 10), 100, 0]
+        t_begin = time.time()
+        for k in range(60):
+            if time.time() - t_begin > 60:
+                break
+            vals = []
+            for v in inputs:
+                x = rnd.choice(pal_r[:8] if k < 40 else pal_r)
+                if rnd.random() < 0.3:
+                    x = -x
+                vals.append(z3.IntVal(int(str(x))) if z3.is_int(v) and not z3.is_expr(x) else (z3.IntVal(1) if z3.is_int(v) else z3.RealVal(str(x))))
+            ctx.solver.push()
+            try:
+                for v, x in zip(inputs, vals):
+                    ctx.solver.add(v == x)
+                ctx.solver.set("timeout", 1000)
+                t1 = time.time()
+                r3_ = str(ctx.solver.check())
+                if DEBUG_PIN:
+                    print(f'palette try {k}: {vals} -> {r3_} {time.time() - t1:.2f}s')
+                if r3_ == 'sat':
+                    return ctx.solver.model()
+            except z3.Z3Exception:
+                pass
+            finally:
+                ctx.solver.pop()
+        # (2) inputs pinned to models of the path condition under random cuts
+        tries = 8
+        s2 = z3.Solver()
+        s2.set("timeout", 700)
+        for a in pcs:
+            s2.add(a)
+        palette = [0, 1, 2, 3, 5, 10, 100, z3.Q(1, 2), z3.Q(1, 10), z3.Q(3, 2), z3.Q(6, 5)]
+        for k in range(tries):
+            if time.time() - t_begin > 70:
+                break
+            s2.push()
+            try:
+                if k:
+                    for _ in range(min(3, len(inputs))):
+                        u = rnd.choice(inputs)
+                        if rnd.random() < 0.5 and len(inputs) > 1:
+                            w = rnd.choice(inputs)
+                            if w is not u:
+                                f = rnd.choice([1, 2, z3.Q(1, 2), z3.Q(5, 4)])
+                                s2.add(u * f < w if rnd.random() < 0.5 else u * f > w)
+                        else:
+                            cst = rnd.choice(palette)
+                            s2.add(u < cst if rnd.random() < 0.5 else u > cst)
+                t0 = time.time()
+                r2_ = str(s2.check())
+                t1 = time.time()
+                if r2_ != 'sat':
+                    if DEBUG_PIN:
+                        print(f'pin try {k}: pc {r2_} {t1 - t0:.2f}s')
+                    continue
+                m = s2.model()
+                vals = [m.eval(v, model_completion=True) for v in inputs]
+                if not all(z3.is_rational_value(x) or z3.is_int_value(x) for x in vals):
+                    continue
+                ctx.solver.push()
+                try:
+                    for v, x in zip(inputs, vals):
+                        ctx.solver.add(v == x)
+                    ctx.solver.set("timeout", 3000)
+                    r3_ = str(ctx.solver.check())
+                    if DEBUG_PIN:
+                        print(f'pin try {k}: pc sat {t1 - t0:.2f}s; pinned {vals} -> {r3_} {time.time() - t1:.2f}s')
+                    if r3_ == 'sat':
+                        return ctx.solver.model()
+                finally:
+                    ctx.solver.pop()
+            except z3.Z3Exception:
+                pass
+            finally:
+                s2.pop()
+        return None
 
     def _dyadic_model(self, ctx, scale=1024):
         """Try to find a counterexample whose real inputs are multiples of 1/scale."""
@@ -1061,6 +1217,9 @@ class SymbolicI:
             return None
         finally:
             ctx.solver.pop()
+
+
+DEBUG_PIN = False
 
 
 def _consts_of(e):
